@@ -67,6 +67,7 @@ def gen_block(block):
     head = decl[:po].strip()
     name = re.findall(r"[A-Za-z_]\w*", head)[-1]
     ret = head[:head.rindex(name)].strip()
+    ret = re.sub(r"\b(static|inline)\b", "", ret).strip()
     params = split_params(decl[po + 1:pe - 1])
     if params == ["void"]:
         params = []
